@@ -27,7 +27,11 @@ def classify(ev, what, prunes):
         if ev in ("UpdateJustified", "SetPin") or prunes > 0:
             return "C10"
         return {"ProcessAttestation": "C09", "Query": "C11"}.get(ev, "C11")
-    if what in ("head after call", "node table after Head", "Head", "FindHead") or ev == "ProcessAttestation":
+    if what == "node table after Head":
+        # internal bookkeeping observed through the verif hook: a localisation aid, not a verdict - the properties
+        # speak about the API, and an implementation is free to keep its weights / links differently
+        return "DIAG"
+    if what in ("head after call", "Head", "FindHead") or ev == "ProcessAttestation":
         return "C09"
     if ev in ("UpdateJustified", "SetPin"):
         return "C10"
@@ -146,6 +150,13 @@ def process_result(run, path, events, res, deviations):
             prop = classify(ev, what, prunes)
             bad_hist.add(h)
             rec = (prop, path, line, body[:1500])
+            if prop == "DIAG":
+                run.counts["diag:node-table-differs"] += 1
+                if run.counts["diag:node-table-differs"] <= 3:
+                    lib.log("diagnostic (no verdict): internal node table differs from the specification's at line %d of %s: %s"
+                            % (line, path, body[:300]))
+                bad_hist.discard(h)
+                continue
             (run.mismatches if prop == run.pid else run.foreign).append(rec)
         elif kind == "DEVIATION":
             run.deviations[parts[0].strip('"')] += 1
